@@ -121,6 +121,8 @@ def main(argv):
             'again': digest2 == digest and trace_digest2 == trace_digest,
             'concurrent_steps': concurrent_steps, 'activations': sess.n,
             'fifo': [v for v in sess.violations if v['mechanism'].startswith('kernel-')][:2],
+            'd15': any(v['mechanism'] == 'first-internal-cancelscope-hits-consumer'
+                       for v in sess.violations),
         }
         if full is not None and index == full:
             record['lines'] = lines
